@@ -1,2 +1,11 @@
-pub mod panic;
+//! Suite registry: one module per correspondence suite; `lookup` maps a suite name to its runner.
 pub mod curve;
+pub mod panic;
+
+pub fn lookup(name: &str) -> Option<fn(&str) -> String> {
+    Some(match name {
+        "panic" => panic::run,
+        "curve" => curve::run,
+        _ => return None,
+    })
+}
